@@ -32,6 +32,9 @@ def check(repo: Repo, rep, tier):
     from .C13 import persist_remove
 
     persist_remove(repo, rep)
+    from .C13 import persist_unique
+
+    persist_unique(repo, rep)
 
 
 def _calls_of(f, cfg, cg, key):
